@@ -73,11 +73,17 @@ class ModelImageMixin:
             The rendered image from the fit PSF models. This image will
             not have any units.
         """
+        def _local_bkg(psfphot):
+            # the fit parameters are in source-id order, while
+            # init_params keeps the order of the input table
+            init_params = psfphot.init_params
+            return init_params['local_bkg'][np.argsort(init_params['id'])]
+
         if isinstance(self, PSFPhotometry):
             progress_bar = self.progress_bar
             psf_model = self.psf_model
             fit_params = self._fit_model_params
-            local_bkgs = self.init_params['local_bkg']
+            local_bkgs = _local_bkg(self)
         else:
             psf_model = self._psfphot.psf_model
             progress_bar = self._psfphot.progress_bar
@@ -92,14 +98,14 @@ class ModelImageMixin:
                     else:
                         fit_params = vstack((fit_params,
                                              psfphot._fit_model_params))
-                    local_bkgs.append(psfphot.init_params['local_bkg'])
+                    local_bkgs.append(_local_bkg(psfphot))
 
                 local_bkgs = _flatten(local_bkgs)
             else:
                 # use the fit params and local backgrounds only from the
                 # final iteration, which includes all sources
                 fit_params = self.fit_results[-1]._fit_model_params
-                local_bkgs = self.fit_results[-1].init_params['local_bkg']
+                local_bkgs = _local_bkg(self.fit_results[-1])
 
         model_params = fit_params
 
